@@ -4,6 +4,7 @@ import (
 	"fmt"
 	"math"
 	"math/cmplx"
+	"strings"
 	"testing"
 
 	"verif/internal/h"
@@ -18,19 +19,26 @@ import (
 
 // CKKSCase is one generated scenario for the approximate scheme. LT.Scale: 0 => the transformation is encoded at
 // scale Q[output level] (so that a rescale restores the input scale), otherwise at scale 2^Scale.
+type CKKSRound struct {
+	LevelP     int    `json:"levelP"` // -1: no auxiliary prime in use
+	CtLevel    int    `json:"ctLevel"`
+	LogSlots   int    `json:"logSlots"`   // LogDimensions.Cols of the ciphertext and of the transformations
+	CtLogScale int    `json:"ctLogScale"` // the input is encrypted at scale 2^CtLogScale
+	Real       bool   `json:"real,omitempty"`
+	LTs        []LT   `json:"lts"`
+	Mode       string `json:"mode"`
+	OutExtra   int    `json:"outExtra,omitempty"`
+	Recv       string `json:"recv,omitempty"` // receiver kind, see recvKinds
+	GalSrc     string `json:"galSrc"`         // "lt" | "func" | "pkg"
+	Seed       uint64 `json:"seed"`
+}
+
+// CKKSCase: parameters, a first round (inline fields) and further rounds on the same keys and evaluator buffers (see BGVRound).
 type CKKSCase struct {
-	P          h.CKKSSpec `json:"params"`
-	LevelP     int        `json:"levelP"`
-	CtLevel    int        `json:"ctLevel"`
-	LogSlots   int        `json:"logSlots"`   // LogDimensions.Cols of the ciphertext and of the transformations
-	CtLogScale int        `json:"ctLogScale"` // the input is encrypted at scale 2^CtLogScale
-	Real       bool       `json:"real,omitempty"`
-	LTs        []LT       `json:"lts"`
-	Mode       string     `json:"mode"`
-	OutExtra   int        `json:"outExtra,omitempty"`
-	Warm       bool       `json:"warm,omitempty"`
-	GalSrc     string     `json:"galSrc"` // "lt" | "func" | "pkg"
-	Seed       uint64     `json:"seed"`
+	P h.CKKSSpec `json:"params"`
+	CKKSRound
+	Warm bool        `json:"warm,omitempty"`
+	More []CKKSRound `json:"more,omitempty"`
 }
 
 func (c CKKSCase) RandSeed() uint64 { return c.Seed }
@@ -76,7 +84,7 @@ func genCKKS(t *rapid.T) CKKSCase {
 		logN = maxInt(7, maxLogN)
 	}
 	nQ := rapid.IntRange(1, 4).Draw(t, "nQ")
-	nP := rapid.IntRange(1, 2).Draw(t, "nP")
+	nP := rapid.IntRange(1, 3).Draw(t, "nP")
 	// (the conjugate-invariant ring of degree >= 128 with a 61-bit Q prime used to hit a key-switching defect of the core
 	// library, keyCI61, fixed by lattigo commit f32bb8f; the stress flavour produces that combination)
 	ci := rapid.IntRange(0, 5).Draw(t, "conjugateInvariant") == 0
@@ -107,21 +115,42 @@ func genCKKS(t *rapid.T) CKKSCase {
 	P := h.GenPrimes(t, ps, m, used, "p")
 	c.P = h.CKKSSpec{RLWESpec: h.RLWESpec{LogN: logN, Q: Q, P: P, CI: ci, Xs: h.DefaultXs, Xe: h.DefaultXe, NTT: true}, LogScale: 40}
 
+	c.Warm = rapid.IntRange(0, 3).Draw(t, "warm") != 0
+	noP := 0
+	if !stress && rapid.IntRange(0, 11).Draw(t, "noP") == 7 {
+		noP = 1 + rapid.IntRange(0, 1).Draw(t, "noPkind")
+		if noP == 1 {
+			c.P.P = nil
+			nP = 0
+		}
+	}
+	c.CKKSRound = genCKKSRound(t, "", Q, nP, noP != 0, ci, maxLogSlots, stress)
+	if !stress {
+		for i, k := 0, rapid.IntRange(0, 5).Draw(t, "moreRounds"); i < k-3; i++ {
+			c.More = append(c.More, genCKKSRound(t, fmt.Sprintf("r%d_", i+1), Q, nP, noP != 0, ci, maxLogSlots, false))
+		}
+	}
+	return c
+}
+
+func genCKKSRound(t *rapid.T, pre string, Q []uint64, nP int, noP, ci bool, maxLogSlots int, stress bool) CKKSRound {
+	var c CKKSRound
+	nQ := len(Q)
 	c.LogSlots = maxLogSlots
-	if !stress && rapid.IntRange(0, 2).Draw(t, "sparse") == 0 {
-		c.LogSlots = rapid.IntRange(1, maxLogSlots).Draw(t, "logSlots")
+	if !stress && rapid.IntRange(0, 2).Draw(t, pre+"sparse") == 0 {
+		c.LogSlots = rapid.IntRange(1, maxLogSlots).Draw(t, pre+"logSlots")
 	}
 	n := 1 << c.LogSlots
-	c.LevelP = biasedLevel(t, 0, nP-1, "levelP")
-	if c.LevelP+1 > nQ && rapid.IntRange(0, 15).Draw(t, "pbufEdge") != 0 {
-		c.LevelP = nQ - 1
+	c.LevelP = biasedLevel(t, 0, nP-1, pre+"levelP")
+	if noP || nP == 0 {
+		c.LevelP = -1
 	}
-	c.CtLevel = biasedLevel(t, 0, nQ-1, "ctLevel")
-	c.Real = ci || rapid.IntRange(0, 3).Draw(t, "real") == 0
-	c.Mode = modes[rapid.IntRange(0, len(modes)-1).Draw(t, "mode")]
+	c.CtLevel = biasedLevel(t, 0, nQ-1, pre+"ctLevel")
+	c.Real = ci || rapid.IntRange(0, 3).Draw(t, pre+"real") == 0
+	c.Mode = modes[rapid.IntRange(0, len(modes)-1).Draw(t, pre+"mode")]
 	nLT := 1
 	if isMany(c.Mode) || isSeq(c.Mode) {
-		nLT = rapid.IntRange(1, 3).Draw(t, "nLT")
+		nLT = rapid.IntRange(1, 3).Draw(t, pre+"nLT")
 	}
 	if isSeq(c.Mode) {
 		if c.CtLevel == 0 {
@@ -133,7 +162,7 @@ func genCKKS(t *rapid.T) CKKSCase {
 	}
 	// structure first
 	for i := 0; i < nLT; i++ {
-		lbl := fmt.Sprintf("lt%d", i)
+		lbl := fmt.Sprintf("%slt%d", pre, i)
 		var l LT
 		if stress {
 			l.Diags, l.Ent = denseSet(t, n, lbl), "rand"
@@ -156,26 +185,42 @@ func genCKKS(t *rapid.T) CKKSCase {
 		l.LevQ = biasedLevel(t, lo, nQ-1, lbl+"_levelQ")
 		c.LTs = append(c.LTs, l)
 	}
+	c.OutExtra = rapid.IntRange(0, 2).Draw(t, pre+"outExtra")
+	c.Recv = recvKinds[rapid.IntRange(0, len(recvKinds)-1).Draw(t, pre+"recv")]
+	if pre != "" && rapid.Bool().Draw(t, pre+"recvPrev") {
+		c.Recv = "prev" // later rounds: half of the receivers are outputs of the previous round
+	}
+	if isSeq(c.Mode) && c.Recv == "low" {
+		c.Recv = ""
+	}
+	// level of output i: a receiver below the output level caps it
+	effLevel := func(i int) int {
+		lvl := minInt(c.CtLevel, c.LTs[i].LevQ)
+		if c.Recv == "low" && (c.Mode == "eval" || c.Mode == "many" || (c.Mode == "manyLastInPlace" && i < len(c.LTs)-1)) {
+			lvl = maxInt(0, lvl-1-c.OutExtra)
+		}
+		return lvl
+	}
 	// then scales that fit below the modulus
 	logQ := func(level int) float64 { return sumLog2(Q[:level+1]) }
 	x0 := math.Sqrt2
 	if isSeq(c.Mode) {
 		lvl0 := minInt(c.CtLevel, c.LTs[0].LevQ)
 		ub := minInt(45, int(logQ(lvl0))-30)
-		c.CtLogScale = rapid.IntRange(minInt(25, ub), ub).Draw(t, "ctLogScale")
+		c.CtLogScale = rapid.IntRange(minInt(25, ub), ub).Draw(t, pre+"ctLogScale")
 		lvl, ls, vmax := c.CtLevel, float64(c.CtLogScale), x0
 		for i := range c.LTs {
 			l := &c.LTs[i]
 			lvl = minInt(lvl, l.LevQ)
-			vmax *= float64(ndOf(*l, n)) * dmaxOf(*l, c.Real)
+			vmax *= float64(maxInt(1, ndOf(*l, n))) * dmaxOf(*l, c.Real)
 			budget := int(logQ(lvl) - ls - math.Log2(vmax) - ckksMargin - 1)
 			lq := log2u(Q[lvl])
 			lo := maxInt(20, int(math.Ceil(25+lq-ls)))
 			hi := minInt(58, budget)
-			if lq <= float64(budget) && (lo > hi || rapid.Bool().Draw(t, fmt.Sprintf("lt%d_scaleQ", i))) {
+			if lq <= float64(budget) && (lo > hi || rapid.Bool().Draw(t, fmt.Sprintf("%slt%d_scaleQ", pre, i))) {
 				l.Scale = 0
 			} else if lo <= hi {
-				l.Scale = uint64(rapid.IntRange(lo, hi).Draw(t, fmt.Sprintf("lt%d_logScale", i)))
+				l.Scale = uint64(rapid.IntRange(lo, hi).Draw(t, fmt.Sprintf("%slt%d_logScale", pre, i)))
 			} else {
 				// no admissible scale: stop the sequence here
 				c.LTs = c.LTs[:i]
@@ -191,39 +236,49 @@ func genCKKS(t *rapid.T) CKKSCase {
 		}
 	} else {
 		minLogQ := math.Inf(1)
-		for _, l := range c.LTs {
-			minLogQ = math.Min(minLogQ, logQ(minInt(c.CtLevel, l.LevQ)))
+		for i := range c.LTs {
+			minLogQ = math.Min(minLogQ, logQ(effLevel(i)))
 		}
 		ub := minInt(45, int(minLogQ)-30)
-		c.CtLogScale = rapid.IntRange(minInt(25, ub), ub).Draw(t, "ctLogScale")
+		c.CtLogScale = rapid.IntRange(minInt(25, ub), ub).Draw(t, pre+"ctLogScale")
 		for i := range c.LTs {
 			l := &c.LTs[i]
-			lvl := minInt(c.CtLevel, l.LevQ)
-			vmax := x0 * float64(ndOf(*l, n)) * dmaxOf(*l, c.Real)
+			lvl := effLevel(i)
+			vmax := x0 * float64(maxInt(1, ndOf(*l, n))) * dmaxOf(*l, c.Real)
 			budget := int(logQ(lvl) - float64(c.CtLogScale) - math.Log2(vmax) - ckksMargin - 1)
-			if log2u(Q[lvl]) <= float64(budget) && rapid.IntRange(0, 2).Draw(t, fmt.Sprintf("lt%d_scaleQ", i)) == 0 {
+			if log2u(Q[lvl]) <= float64(budget) && rapid.IntRange(0, 2).Draw(t, fmt.Sprintf("%slt%d_scaleQ", pre, i)) == 0 {
 				l.Scale = 0
 			} else {
 				hi := minInt(58, budget)
-				l.Scale = uint64(rapid.IntRange(minInt(20, hi), hi).Draw(t, fmt.Sprintf("lt%d_logScale", i)))
+				l.Scale = uint64(rapid.IntRange(minInt(20, hi), hi).Draw(t, fmt.Sprintf("%slt%d_logScale", pre, i)))
 			}
 		}
 	}
-	c.OutExtra = rapid.IntRange(0, 2).Draw(t, "outExtra")
-	c.Warm = rapid.IntRange(0, 3).Draw(t, "warm") != 0
-	c.GalSrc = []string{"lt", "func", "pkg"}[rapid.IntRange(0, 2).Draw(t, "galSrc")]
-	c.Seed = rapid.Uint64().Draw(t, "seed")
+	c.GalSrc = []string{"lt", "func", "pkg"}[rapid.IntRange(0, 2).Draw(t, pre+"galSrc")]
+	c.Seed = rapid.Uint64().Draw(t, pre+"seed")
 	return c
 }
 
 func (c CKKSCase) valid() string {
-	nQ, nP := len(c.P.Q), len(c.P.P)
-	if nQ == 0 || nP == 0 || c.LevelP < 0 || c.LevelP >= nP || c.CtLevel < 0 || c.CtLevel >= nQ || len(c.LTs) == 0 {
+	if len(c.P.Q) == 0 {
 		return "levels"
 	}
-	maxLogSlots := c.P.LogN - 1
-	if c.P.CI {
-		maxLogSlots = c.P.LogN
+	for _, r := range append([]CKKSRound{c.CKKSRound}, c.More...) {
+		if why := r.valid(c.P); why != "" {
+			return why
+		}
+	}
+	return ""
+}
+
+func (c CKKSRound) valid(P h.CKKSSpec) string {
+	nQ, nP := len(P.Q), len(P.P)
+	if c.LevelP < -1 || c.LevelP >= nP || c.CtLevel < 0 || c.CtLevel >= nQ || len(c.LTs) == 0 {
+		return "levels"
+	}
+	maxLogSlots := P.LogN - 1
+	if P.CI {
+		maxLogSlots = P.LogN
 		if !c.Real {
 			return "ci-needs-real"
 		}
@@ -238,6 +293,13 @@ func (c CKKSCase) valid() string {
 	}
 	if !ok {
 		return "mode"
+	}
+	ok = false
+	for _, m := range recvKinds {
+		ok = ok || m == c.Recv
+	}
+	if !ok {
+		return "recv"
 	}
 	if !isMany(c.Mode) && !isSeq(c.Mode) && len(c.LTs) != 1 {
 		return "nLT"
@@ -311,6 +373,18 @@ func ckksApply(diags map[int][]complex128, x []complex128, n int) []complex128 {
 	return y
 }
 
+// ckksEnv is what the rounds of a case share (see bgvEnv).
+type ckksEnv struct {
+	params ckks.Parameters
+	kgen   *rlwe.KeyGenerator
+	sk     *rlwe.SecretKey
+	enc    *rlwe.Encryptor
+	dec    *rlwe.Decryptor
+	ecd    *ckks.Encoder
+	base   *ckks.Evaluator
+	prev   []*rlwe.Ciphertext
+}
+
 func runCKKS(c CKKSCase, rec *h.Rec) error {
 	if why := c.valid(); why != "" {
 		rec.Class("invalid-case:" + why)
@@ -321,6 +395,48 @@ func runCKKS(c CKKSCase, rec *h.Rec) error {
 		rec.Class("params-rejected")
 		return nil
 	}
+	if params.LogMaxSlots() != map[bool]int{false: c.P.LogN - 1, true: c.P.LogN}[c.P.CI] || params.LevelsConsumedPerRescaling() != 1 {
+		return h.Failf("C12:harness:ckks:params-model", "LogMaxSlots=%d levelsPerRescale=%d", params.LogMaxSlots(), params.LevelsConsumedPerRescaling())
+	}
+	env := &ckksEnv{params: params}
+	env.kgen = rlwe.NewKeyGenerator(params)
+	env.sk = env.kgen.GenSecretKeyNew()
+	env.enc = rlwe.NewEncryptor(params, env.sk)
+	env.dec = rlwe.NewDecryptor(params, env.sk)
+	env.ecd = ckks.NewEncoder(params)
+	env.base = ckks.NewEvaluator(params, nil)
+	if c.Warm && len(c.P.P) > 0 {
+		wk := rlwe.NewMemEvaluationKeySet(nil, env.kgen.GenGaloisKeyNew(params.GaloisElement(1), env.sk))
+		wct, _ := env.enc.EncryptNew(ckks.NewPlaintext(params, params.MaxLevel()))
+		if _, err := env.base.WithKey(wk).RotateNew(wct, 1); err != nil {
+			return h.Failf("C12:harness:ckks:warmup", "%v", err)
+		}
+	}
+	rounds := append([]CKKSRound{c.CKKSRound}, c.More...)
+	rec.Classf("rounds=%d", len(rounds))
+	desc, nontrivial := "", len(rounds) > 1
+	for ri, r := range rounds {
+		cc := c
+		cc.CKKSRound = r
+		d, nt, stop, err := runCKKSRound(cc, ri, env, rec)
+		if err != nil || stop {
+			return err
+		}
+		if ri == 0 {
+			desc = d
+		}
+		nontrivial = nontrivial || nt
+	}
+	if nontrivial && desc != "" {
+		rec.NonTrivial(fmt.Sprintf("%s/rounds=%d", desc, len(rounds)))
+	}
+	return nil
+}
+
+// runCKKSRound: see runBGVRound.
+func runCKKSRound(c CKKSCase, ri int, env *ckksEnv, rec *h.Rec) (desc string, nontrivial, stop bool, err error) {
+	params := env.params
+	kgen, sk, enc, dec, ecd := env.kgen, env.sk, env.enc, env.dec, env.ecd
 	N := params.N()
 	n := 1 << c.LogSlots
 	Q := c.P.Q
@@ -332,14 +448,86 @@ func runCKKS(c CKKSCase, rec *h.Rec) error {
 	if c.P.CI {
 		N *= 4
 	}
-	if params.LogMaxSlots() != map[bool]int{false: c.P.LogN - 1, true: c.P.LogN}[c.P.CI] || params.LevelsConsumedPerRescaling() != 1 {
-		return h.Failf("C12:ckks:harness:params-model", "LogMaxSlots=%d levelsPerRescale=%d", params.LogMaxSlots(), params.LevelsConsumedPerRescaling())
+	noP := c.LevelP < 0
+	empty := hasEmptySet(c.LTs)
+	panicKey := func() string {
+		switch {
+		case noP:
+			return keyNoP
+		case empty:
+			return keyEmpty
+		case len(Q) < c.LevelP+1:
+			return keyPBuffer
+		}
+		return ""
+	}
+	finding := func(key, msg string) (string, bool, bool, error) {
+		if rec.Known(key, msg) {
+			rec.Class("known=" + key)
+			return "", false, true, nil
+		}
+		return "", false, true, h.Failf(key, "%s", msg)
+	}
+	dims := ring.Dimensions{Rows: 0, Cols: c.LogSlots}
+
+	// receivers (a receiver below the output level caps the level, as for every evaluator method)
+	nOut := len(c.LTs)
+	if isSeq(c.Mode) {
+		nOut = 1
+	}
+	docLevel := func(i int) int { return minInt(c.CtLevel, c.LTs[i].LevQ) }
+	recv := make([]*rlwe.Ciphertext, nOut)
+	takesRecv := c.Mode == "eval" || c.Mode == "many" || c.Mode == "seq" || c.Mode == "manyLastInPlace"
+	recvClass := ""
+	if takesRecv {
+		recvClass = "fresh"
+		for i := range recv {
+			lvl := docLevel(i)
+			switch {
+			case c.Mode == "manyLastInPlace" && i == nOut-1:
+				// the input itself, set below
+			case c.Recv == "low" && !isSeq(c.Mode):
+				recv[i] = ckks.NewCiphertext(params, 1, maxInt(0, lvl-1-c.OutExtra))
+				recvClass = "below-output-level"
+			case c.Recv == "prev" && i < len(env.prev):
+				recv[i] = env.prev[i]
+				recvClass = "previous-output"
+			case c.Recv == "deg2":
+				r := ckks.NewCiphertext(params, 2, minInt(maxLevel, lvl+c.OutExtra))
+				jr := h.NewSplitMix(c.Seed ^ 0xdead)
+				for _, v := range r.Value {
+					for li, q := range Q[:r.Level()+1] {
+						for j := range v.Coeffs[li] {
+							v.Coeffs[li][j] = jr.Uint64() % q
+						}
+					}
+				}
+				r.Scale = rlwe.NewScale(12345)
+				recv[i] = r
+				recvClass = "degree-2-with-data"
+			default:
+				recv[i] = ckks.NewCiphertext(params, 1, minInt(maxLevel, lvl+c.OutExtra))
+			}
+		}
+	}
+	capOf := func(i int) int {
+		if takesRecv && recv[i] != nil {
+			return recv[i].Level()
+		}
+		return maxLevel
+	}
+	startLevel := c.CtLevel
+	if isSeq(c.Mode) {
+		startLevel = minInt(startLevel, capOf(0))
 	}
 
 	// plan: levels, scales, magnitudes and the hard error bound -----------------------------------------------------
 	be := c.P.Xe.AbsBound()
-	alpha := c.LevelP + 1
-	logP := sumLog2(c.P.P[:c.LevelP+1])
+	alpha := maxInt(c.LevelP+1, 1)
+	logP := 0.0
+	if !noP {
+		logP = sumLog2(c.P.P[:c.LevelP+1])
+	}
 	logqd := maxDigitLog2(Q[:c.CtLevel+1], alpha)
 	Np := float64(2 * n) // number of coefficients of the sub-ring that carries the n slots
 	logQ := func(level int) float64 { return sumLog2(Q[:level+1]) }
@@ -358,12 +546,13 @@ func runCKKS(c CKKSCase, rec *h.Rec) error {
 		dom      string  // dominating error term (diagnostics)
 	}
 	// one transformation applied to (level, logScale, vmax, delta)
-	apply := func(in plan, l LT) (out plan, fits bool) {
+	apply := func(in plan, l LT, cap int) (out plan, fits bool) {
 		lvl := minInt(in.level, l.LevQ)
-		lls := ltLogScale(l, Q, lvl)
+		lls := ltLogScale(l, Q, lvl) // scale 0 = Q[documented output level], whatever the receiver
+		lvl = minInt(lvl, cap)
 		slt := math.Exp2(lls)
 		sin := math.Exp2(in.logScale)
-		nd := float64(ndOf(l, n))
+		nd := float64(maxInt(1, ndOf(l, n))) // (the empty set: bounds of a single zero diagonal)
 		dmax := dmaxOf(l, c.Real)
 		dk := Np * (0.5 + slt*dmax*math.Exp2(-45))
 		eks := math.Min(ksNoiseBound(int(nd), N, 2*slt*dmax+1, be, c.CtLevel+1, alpha, logqd, logP),
@@ -384,19 +573,19 @@ func runCKKS(c CKKSCase, rec *h.Rec) error {
 		fits = out.logScale+math.Log2(out.vmax)+ckksMargin <= logQ(lvl) && math.Log2(out.delta)+ckksMargin <= logQ(lvl)
 		return
 	}
-	in0 := plan{c.CtLevel, float64(c.CtLogScale), x0, delta0, ""}
+	in0 := plan{startLevel, float64(c.CtLogScale), x0, delta0, ""}
 	if in0.logScale+math.Log2(x0)+ckksMargin > logQ(c.CtLevel) {
 		rec.Class("invalid-case:input-overflow")
-		return nil
+		return "", false, true, nil
 	}
 	var plans []plan
 	if isSeq(c.Mode) {
 		cur := in0
 		for _, l := range c.LTs {
-			out, fits := apply(cur, l)
+			out, fits := apply(cur, l, maxLevel)
 			if !fits || out.level == 0 {
 				rec.Class("invalid-case:overflow-or-levels")
-				return nil
+				return "", false, true, nil
 			}
 			q := float64(Q[out.level])
 			out.delta = out.delta/q + Np*float64(N+2)/2
@@ -406,24 +595,17 @@ func runCKKS(c CKKSCase, rec *h.Rec) error {
 		}
 		plans = []plan{cur}
 	} else {
-		for _, l := range c.LTs {
-			out, fits := apply(in0, l)
+		for i, l := range c.LTs {
+			out, fits := apply(in0, l, capOf(i))
 			if !fits {
 				rec.Class("invalid-case:overflow")
-				return nil
+				return "", false, true, nil
 			}
 			plans = append(plans, out)
 		}
 	}
 
 	// keys, input --------------------------------------------------------------------------------------------------
-	kgen := rlwe.NewKeyGenerator(params)
-	sk := kgen.GenSecretKeyNew()
-	enc := rlwe.NewEncryptor(params, sk)
-	dec := rlwe.NewDecryptor(params, sk)
-	ecd := ckks.NewEncoder(params)
-	dims := ring.Dimensions{Rows: 0, Cols: c.LogSlots}
-
 	rng := h.NewSplitMix(c.Seed)
 	x := make([]complex128, n)
 	for i := range x {
@@ -433,11 +615,14 @@ func runCKKS(c CKKSCase, rec *h.Rec) error {
 	pt.Scale = rlwe.NewScale(sct)
 	pt.LogDimensions = dims
 	if err := ecd.Encode(x, pt); err != nil {
-		return h.Failf(tag+":encode-input", "%v", err)
+		return "", false, true, h.Failf(tag+":encode-input", "%v", err)
 	}
 	ct, err := enc.EncryptNew(pt)
 	if err != nil {
-		return h.Failf(tag+":encrypt-input", "%v", err)
+		return "", false, true, h.Failf(tag+":encrypt-input", "%v", err)
+	}
+	if c.Mode == "manyLastInPlace" {
+		recv[nOut-1] = ct
 	}
 
 	// transformations ----------------------------------------------------------------------------------------------
@@ -445,8 +630,9 @@ func runCKKS(c CKKSCase, rec *h.Rec) error {
 	models := make([]func([]complex128) []complex128, len(c.LTs))
 	wantScale := make([]rlwe.Scale, len(c.LTs))
 	var galEls []uint64
-	{
-		lvl := c.CtLevel
+	var keys []*rlwe.GaloisKey
+	build := func() error {
+		lvl := startLevel
 		for i, l := range c.LTs {
 			outLvl := minInt(c.CtLevel, l.LevQ)
 			if isSeq(c.Mode) {
@@ -555,21 +741,25 @@ func runCKKS(c CKKSCase, rec *h.Rec) error {
 				galEls = append(galEls, lts[i].GaloisElements(params)...)
 			}
 		}
+		galEls = dedupU64(galEls)
+		lp := c.LevelP
+		keys = kgen.GenGaloisKeysNew(galEls, sk, rlwe.EvaluationKeyParameters{LevelP: &lp})
+		return nil
 	}
-	galEls = dedupU64(galEls)
-	lp := c.LevelP
-	keys := kgen.GenGaloisKeysNew(galEls, sk, rlwe.EvaluationKeyParameters{LevelP: &lp})
-	ks := newRecKeySet(keys)
-
-	base := ckks.NewEvaluator(params, nil)
-	if c.Warm {
-		wk := rlwe.NewMemEvaluationKeySet(nil, kgen.GenGaloisKeyNew(params.GaloisElement(1), sk))
-		wct, _ := enc.EncryptNew(pt)
-		if _, err := base.WithKey(wk).RotateNew(wct, 1); err != nil {
-			return h.Failf(tag+":warmup", "%v", err)
+	var setupErr error
+	pk, pmsg := guard(panicKey, func() { setupErr = build() })
+	if pk != "" {
+		return finding(pk, fmt.Sprintf("while building the transformations/keys: %s (lts=%s levelP=%d #P=%d)", pmsg, describeLTs(c.LTs), c.LevelP, len(c.P.P)))
+	}
+	if setupErr != nil {
+		if _, isFailure := setupErr.(*h.Failure); !isFailure || ((noP || empty) && strings.HasSuffix(setupErr.(*h.Failure).Key, "Encode:error")) {
+			rec.Classf("error-accepted(noP=%v,empty-set=%v)", noP, empty)
+			return "", false, true, nil
 		}
+		return "", false, true, setupErr
 	}
-	ltEval := ckkslt.NewEvaluator(base.WithKey(ks))
+	ks := newRecKeySet(keys)
+	ltEval := ckkslt.NewEvaluator(env.base.WithKey(ks))
 
 	// expected values
 	var wants [][]complex128
@@ -585,16 +775,20 @@ func runCKKS(c CKKSCase, rec *h.Rec) error {
 		}
 	}
 
-	newOut := func(level int) *rlwe.Ciphertext {
-		return ckks.NewCiphertext(params, 1, minInt(maxLevel, level+c.OutExtra))
+	// snapshots of everything the call must leave alone
+	hct := hashCt(ct)
+	hlts := make([]uint64, len(lts))
+	for i := range lts {
+		hlts[i] = hashLT(lintrans.LinearTransformation(lts[i]))
 	}
+	hkeys := hashKeys(keys)
+
 	var outs []*rlwe.Ciphertext
-	pbuf := guardPBuffer(len(Q), c.LevelP, func() {
+	pk, pmsg = guard(panicKey, func() {
 		switch c.Mode {
 		case "eval":
-			o := newOut(plans[0].level)
-			err = ltEval.Evaluate(ct, lts[0], o)
-			outs = []*rlwe.Ciphertext{o}
+			err = ltEval.Evaluate(ct, lts[0], recv[0])
+			outs = recv
 		case "evalInPlace":
 			err = ltEval.Evaluate(ct, lts[0], ct)
 			outs = []*rlwe.Ciphertext{ct}
@@ -602,17 +796,14 @@ func runCKKS(c CKKSCase, rec *h.Rec) error {
 			var o *rlwe.Ciphertext
 			o, err = ltEval.EvaluateNew(ct, lts[0])
 			outs = []*rlwe.Ciphertext{o}
-		case "many":
-			for i := range lts {
-				outs = append(outs, newOut(plans[i].level))
-			}
-			err = ltEval.EvaluateMany(ct, lts, outs)
+		case "many", "manyLastInPlace":
+			err = ltEval.EvaluateMany(ct, lts, recv)
+			outs = recv
 		case "manyNew":
 			outs, err = ltEval.EvaluateManyNew(ct, lts)
 		case "seq":
-			o := newOut(minInt(c.CtLevel, c.LTs[0].LevQ))
-			err = ltEval.EvaluateSequential(ct, lts, o)
-			outs = []*rlwe.Ciphertext{o}
+			err = ltEval.EvaluateSequential(ct, lts, recv[0])
+			outs = recv
 		case "seqInPlace":
 			err = ltEval.EvaluateSequential(ct, lts, ct)
 			outs = []*rlwe.Ciphertext{ct}
@@ -622,28 +813,46 @@ func runCKKS(c CKKSCase, rec *h.Rec) error {
 			outs = []*rlwe.Ciphertext{o}
 		}
 	})
-	if pbuf != "" {
-		if rec.Known(keyPBuffer, pbuf) {
-			rec.Class("known=" + keyPBuffer)
-			return nil
-		}
-		return h.Failf(keyPBuffer, "%s", pbuf)
+	if pk != "" {
+		return finding(pk, fmt.Sprintf("%s (mode=%s lts=%s levelP=%d #Q=%d #P=%d)", pmsg, c.Mode, describeLTs(c.LTs), c.LevelP, len(Q), len(c.P.P)))
 	}
 	if err != nil {
 		if miss := ks.missingList(); len(miss) != 0 {
-			return h.Failf("C12:ckks:GaloisElements:insufficient:"+c.GalSrc, "keys for exactly the advertised elements %v generated, evaluation asked for %v: %v (lts=%s)", galEls, miss, err, describeLTs(c.LTs))
+			return "", false, true, h.Failf("C12:ckks:GaloisElements:insufficient:"+c.GalSrc, "keys for exactly the advertised elements %v generated, evaluation asked for %v: %v (lts=%s)", galEls, miss, err, describeLTs(c.LTs))
 		}
-		return h.Failf(tag+":error", "%v", err)
+		if noP || empty {
+			rec.Classf("error-accepted(noP=%v,empty-set=%v)", noP, empty)
+			return "", false, true, nil
+		}
+		return "", false, true, h.Failf(tag+":error", "%v (recv=%s)", err, recvClass)
 	}
 	if len(outs) != len(plans) {
-		return h.Failf(tag+":output-count", "got %d outputs, want %d", len(outs), len(plans))
+		return "", false, true, h.Failf(tag+":output-count", "got %d outputs, want %d", len(outs), len(plans))
+	}
+	if !inPlace(c.Mode) && hashCt(ct) != hct {
+		return "", false, true, h.Failf(tag+":input-ciphertext-modified", "the input ciphertext changed during an out-of-place evaluation (lts=%s)", describeLTs(c.LTs))
+	}
+	for i := range lts {
+		if hashLT(lintrans.LinearTransformation(lts[i])) != hlts[i] {
+			return "", false, true, h.Failf(tag+":transformation-modified", "linear transformation %d changed during the evaluation", i)
+		}
+	}
+	if hashKeys(keys) != hkeys {
+		return "", false, true, h.Failf(tag+":galois-key-modified", "a Galois key changed during the evaluation")
 	}
 
 	// classes ------------------------------------------------------------------------------------------------------
 	rec.Classf("mode=%s", c.Mode)
-	rec.Classf("logN=%d/logSlots=%d", c.P.LogN, c.LogSlots)
+	if ri == 0 {
+		rec.Classf("logN=%d/logSlots=%d", c.P.LogN, c.LogSlots)
+	} else {
+		rec.Classf("later-round/mode=%s", c.Mode)
+	}
 	rec.Classf("nLT=%d", len(c.LTs))
-	nontrivial := len(c.LTs) > 1
+	if recvClass != "" {
+		rec.Classf("receiver=%s", recvClass)
+	}
+	nontrivial = len(c.LTs) > 1
 	for _, l := range c.LTs {
 		neg, high := setClass(l.Diags, n)
 		rec.Classf("ratio=%d", l.Ratio)
@@ -665,16 +874,19 @@ func runCKKS(c CKKSCase, rec *h.Rec) error {
 		} else {
 			rec.Class("ltscale=2^k")
 		}
+		if c.LevelP >= 0 && c.LevelP < len(c.P.P)-1 {
+			rec.Classf("levelP<max/%s", map[bool]string{true: "naive", false: "bsgs"}[l.Ratio < 0])
+		}
 		nontrivial = nontrivial || neg || high || l.Ratio != 1 || l.LevQ < maxLevel
 	}
 	if c.LogSlots < params.LogMaxSlots() {
 		rec.Class("sparse-packing")
 	}
+	if noP {
+		rec.Classf("levelP=-1(#P=%d):returned-without-error(values not compared)", len(c.P.P))
+	}
 	if c.P.CI {
 		rec.Class("conjugate-invariant-ring")
-	}
-	if c.LevelP < len(c.P.P)-1 {
-		rec.Class("levelP<max")
 	}
 
 	n1s := make([]int, len(lts))
@@ -686,28 +898,32 @@ func runCKKS(c CKKSCase, rec *h.Rec) error {
 	for i, o := range outs {
 		p := plans[i]
 		if o.Level() != p.level {
-			return h.Failf(tag+":output-level", "output %d at level %d, documented min(ct level, LevelQ)%s = %d", i, o.Level(), map[bool]string{true: " minus one per rescale"}[isSeq(c.Mode)], p.level)
+			return "", false, true, h.Failf(tag+":output-level", "output %d at level %d, want min(ct level, LevelQ, receiver level)%s = %d (recv=%s)", i, o.Level(), map[bool]string{true: " minus one per rescale"}[isSeq(c.Mode)], p.level, recvClass)
 		}
 		if o.LogDimensions != dims {
-			return h.Failf(tag+":output-dims", "output %d has LogDimensions %v, want %v", i, o.LogDimensions, dims)
+			return "", false, true, h.Failf(tag+":output-dims", "output %d has LogDimensions %v, want %v", i, o.LogDimensions, dims)
 		}
 		// scale: exact product (and exact quotient by the consumed primes for the sequential evaluation)
 		if !isSeq(c.Mode) {
 			want := pt.Scale.Mul(wantScale[i])
 			if o.Scale.Cmp(want) != 0 {
-				return h.Failf(tag+":output-scale", "output %d has scale %v, want ct.Scale*lt.Scale = %v", i, &o.Scale.Value, &want.Value)
+				return "", false, true, h.Failf(tag+":output-scale", "output %d has scale %v, want ct.Scale*lt.Scale = %v", i, &o.Scale.Value, &want.Value)
 			}
 		} else {
 			want := pt.Scale
-			lvl := c.CtLevel
+			lvl := startLevel
 			for j, l := range c.LTs {
 				lvl = minInt(lvl, l.LevQ)
 				want = want.Mul(wantScale[j]).Div(rlwe.NewScale(Q[lvl]))
 				lvl--
 			}
 			if d := math.Abs(o.Scale.Float64()/want.Float64() - 1); d > 1e-12 {
-				return h.Failf(tag+":output-scale", "output has scale %v, want prod(lt.Scale/q)*ct.Scale = %v", &o.Scale.Value, &want.Value)
+				return "", false, true, h.Failf(tag+":output-scale", "output has scale %v, want prod(lt.Scale/q)*ct.Scale = %v", &o.Scale.Value, &want.Value)
 			}
+		}
+		if noP {
+			discriminating = false
+			continue
 		}
 		tol := p.delta/math.Exp2(p.logScale) + math.Exp2(-40)*(1+p.vmax)
 		if tol > math.Exp2(-6) {
@@ -717,7 +933,7 @@ func runCKKS(c CKKSCase, rec *h.Rec) error {
 		}
 		got := make([]complex128, n)
 		if err := ecd.Decode(dec.DecryptNew(o), got); err != nil {
-			return h.Failf(tag+":decode", "%v", err)
+			return "", false, true, h.Failf(tag+":decode", "%v", err)
 		}
 		for j := range got {
 			e := cmplx.Abs(got[j] - wants[i][j])
@@ -726,27 +942,32 @@ func runCKKS(c CKKSCase, rec *h.Rec) error {
 			}
 			if !(e <= tol) {
 				key := tag + ":wrong-product"
-				if hasOnlyDiag0Naive(c.LTs, n) {
+				switch {
+				case empty:
+					key = keyEmpty
+				case hasOnlyDiag0Naive(c.LTs, n):
 					key = keyDiag0
-				} else if isMany(c.Mode) && i >= clobberedFrom(n1s, c.LTs, n) {
+				case isMany(c.Mode) && i >= clobberedFrom(n1s, c.LTs, n):
 					key = keyManyClobber
+				case recvClass == "degree-2-with-data":
+					key = tag + ":wrong-product:receiver-of-degree-2"
+				case recvClass == "previous-output" || recvClass == "below-output-level":
+					key = tag + ":wrong-product:receiver-" + recvClass
+				case ri > 0:
+					key = tag + ":wrong-product:later-round"
 				}
-				msg := fmt.Sprintf("output %d slot %d: got %v want %v, |diff|=%.3g > tolerance %.3g (hard noise bound); lts=%s", i, j, got[j], wants[i][j], e, tol, describeLTs(c.LTs))
-				if rec.Known(key, msg) {
-					rec.Class("known=" + key)
-					return nil
-				}
-				return h.Failf(key, "%s", msg)
+				return finding(key, fmt.Sprintf("round %d output %d slot %d: got %v want %v, |diff|=%.3g > tolerance %.3g (hard noise bound); recv=%s lts=%s", ri, i, j, got[j], wants[i][j], e, tol, recvClass, describeLTs(c.LTs)))
 			}
 		}
 	}
 	rec.Classf("err/tol<=2^%d", int(math.Ceil(math.Log2(worst+1e-300))))
-	if nontrivial && discriminating {
-		rec.NonTrivial(fmt.Sprintf("ckks/%s/ci=%v/N=%d/n=%d/real=%v/lp<max=%v/ctl<max=%v/%s", c.Mode, c.P.CI, params.N(), n, c.Real, c.LevelP < len(c.P.P)-1, c.CtLevel < maxLevel, ltDescriptor(c.LTs, n, maxLevel)))
+	env.prev = outs
+	if discriminating {
+		desc = fmt.Sprintf("ckks/%s/ci=%v/N=%d/n=%d/real=%v/lp<max=%v/ctl<max=%v/recv=%s/%s", c.Mode, c.P.CI, params.N(), n, c.Real, c.LevelP < len(c.P.P)-1, c.CtLevel < maxLevel, recvClass, ltDescriptor(c.LTs, n, maxLevel))
 	}
-	return nil
+	return desc, nontrivial, false, nil
 }
 
-var propCKKS = h.NewProp("TestPropCKKSLinearTransformation", h.Budget{Quick: 2500, Thorough: 60000}, genCKKS, runCKKS)
+var propCKKS = h.NewProp("TestPropCKKSLinearTransformation", h.Budget{Quick: 900, Thorough: 16000}, genCKKS, runCKKS)
 
 func TestPropCKKSLinearTransformation(t *testing.T) { propCKKS.Check(t) }
